@@ -352,10 +352,13 @@ func runC16(c *Check, w *World) {
 	}
 	expectField("Digits", func(t *Term) bool { return (t.IsConst() && t.Sym == "6") || isParse(t, "digits") }, "6 by default, else the number parsed from query digits")
 	expectField("Period", func(t *Term) bool { return (t.IsConst() && t.Sym == "30") || isParse(t, "period") }, "30 by default, else the number parsed from query period")
-	// algorithm names: parser switch vs algoStrMap
-	if e, info := w.GlobalInit(OtpPath, "algoStrMap"); e != nil {
+	// algorithm names: what Algorithm.String() yields for each hash value (a name table looked up by the receiver,
+	// or a switch on the receiver) against the parser's switch
+	names := map[string]int64{}
+	namesOK := false
+	sf := w.Func(OtpPath, "Algorithm.String")
+	if e, info := w.GlobalInit(OtpPath, "algoStrMap"); e != nil && sf != nil {
 		lit := EvalLit(e, info)
-		names := map[string]int64{}
 		if lit != nil && lit.Kind == "map" {
 			for i, k := range lit.Keys {
 				kv, _ := k.Int()
@@ -365,6 +368,39 @@ func runC16(c *Check, w *World) {
 				}
 			}
 		}
+		r := tb.Results(sf, nil, nil, 0)
+		want := fmt.Sprintf("lookup(gval(otp.algoStrMap); param(%s#0))", FuncName(sf))
+		namesOK = len(r) == 1 && r[0].String() == want
+		c.Decide(namesOK, "R16.3", FuncName(sf), "algorithm-name-lookup", "Algorithm.String() is the lookup in the name table", "Algorithm.String() returns "+clip(fmt.Sprint(r), 160)+", not the name table entry of its receiver", w.Pos(sf.Pos()))
+	} else if sf != nil {
+		// switch form: evaluate String() for every receiver value
+		paths, err := EnumPaths(sf, 1024)
+		if err == nil {
+			ae := &AEval{W: w, TB: tb}
+			namesOK = true
+			for v := int64(0); v < 256 && namesOK; v++ {
+				cell := Cell{fmt.Sprintf("param(%s#0)", FuncName(sf)): aInt(v, v)}
+				feas, dec := ae.FeasiblePaths(paths, cell)
+				if !dec || len(feas) != 1 || feas[0].Ret == nil {
+					namesOK = false
+					break
+				}
+				rt := tb.Of(feas[0].Result(0))
+				if !rt.IsConst() {
+					namesOK = false
+					break
+				}
+				if nm, err := unquote(rt.Sym); err == nil && nm != "" {
+					if _, dup := names[nm]; dup {
+						namesOK = false
+					}
+					names[nm] = v
+				}
+			}
+		}
+		c.Decide(namesOK, "R16.3", FuncName(sf), "algorithm-name-lookup", "Algorithm.String() yields one constant name per hash value (evaluated for all 256 receiver values)", "Algorithm.String() is neither a lookup in a name table nor a switch yielding one constant name per value", w.Pos(sf.Pos()))
+	}
+	if sf != nil && namesOK {
 		got := map[string]string{}
 		for _, en := range stringSwitchTables(w, tb, parse) {
 			if en.Target == "Algorithm" {
@@ -377,19 +413,14 @@ func runC16(c *Check, w *World) {
 		}
 		sort.Strings(ns)
 		for _, n := range ns {
-			c.Decide(got[strings.ToUpper(n)] == fmt.Sprint(names[n]), "R16.3", pfn, "algorithm-name:"+n, "the name the generator writes for this hash parses back to the same hash", fmt.Sprintf("the generator writes %q for hash %d but the parser maps it to %q", n, names[n], got[strings.ToUpper(n)]), w.Pos(parse.Pos()))
+			g := got[strings.ToUpper(n)]
+			c.Decide(g == fmt.Sprint(names[n]), "R16.3", pfn, "algorithm-name:"+n, "the name the generator writes for this hash parses back to the same hash", fmt.Sprintf("the generator writes %q for hash %d but the parser maps it to %q", n, names[n], g), w.Pos(parse.Pos()))
 		}
 		if len(names) != 3 {
-			c.Bad("R16.3", "otp.algoStrMap", "algorithm-names", fmt.Sprintf("%d hash names, expected three", len(names)), "")
+			c.Bad("R16.3", "otp.Algorithm.String", "algorithm-names", fmt.Sprintf("%d hash names, expected three", len(names)), "")
 		}
-	} else {
-		c.Unk("R16.3", "otp", "algorithm-names", "the hash name table used by Algorithm.String was not found", "")
-	}
-	// Algorithm.String() is a lookup in that table
-	if sf := w.Func(OtpPath, "Algorithm.String"); sf != nil {
-		r := tb.Results(sf, nil, nil, 0)
-		want := fmt.Sprintf("lookup(gval(otp.algoStrMap); param(%s#0))", FuncName(sf))
-		c.Decide(len(r) == 1 && r[0].String() == want, "R16.3", FuncName(sf), "algorithm-name-lookup", "Algorithm.String() is the lookup in the name table", "Algorithm.String() returns "+clip(fmt.Sprint(r), 160)+", not the name table entry of its receiver", w.Pos(sf.Pos()))
+	} else if sf == nil {
+		c.Unk("R16.3", "otp", "algorithm-names", "Algorithm.String was not found", "")
 	}
 	// scheme and kinds compared by the parser
 	schemeOK, kindsRead := false, map[string]bool{}
